@@ -87,6 +87,17 @@ def check_graph(ctx, case):
         back2 = monitored(dsw.latter_map_to_accessor, big, {v: list(ws) for v, ws in want_lm.items()}, k)
         if back2.kind != "ok" or not np.array_equal(np.asarray(back2.value), acc):
             ctx.fail("latter-map-to-accessor", "latter_map_to_accessor(reference map) != accessor; %s" % where)
+        keys = list(want_lm)
+        rng.shuffle(keys)
+        hand = {}
+        for v in keys:
+            row = list(want_lm[v])
+            rng.shuffle(row)
+            hand[v] = row
+        back3 = monitored(dsw.latter_map_to_accessor, big, hand, k)
+        if back3.kind != "ok" or not np.array_equal(np.asarray(back3.value), acc):
+            ctx.fail("latter-map-to-accessor", "latter_map_to_accessor(a hand-built map with keys and successors in arbitrary order) != accessor; %s" % where)
+        ctx.cls("hand-built map in arbitrary order")
 
     if k <= 5 or not ctx.quick():
         out = monitored(dsw.accessor_to_adjacency_matrix, big + n * 50, facc)
@@ -123,6 +134,32 @@ def check_graph(ctx, case):
                         ctx.fail("illegal-matrix-wrong-exception", "matrix with the non-shift arc %d->%d: %s; %s" % (u, cand[0], r.describe(), where))
                     ctx.cls("illegal-matrix|rejected")
                     ctx.evaluations += 1
+                # re-wired: one legal arc replaced by a non-shift arc, so the number of ones is unchanged
+                arcs = np.argwhere(want == 1)
+                if len(arcs) and k >= 2:
+                    for _ in range(2):
+                        u, w_old = map(int, arcs[rng.randrange(len(arcs))])
+                        cand = [v for v in (rng.randrange(n) for _ in range(8)) if v not in set(G.succs(u, k))]
+                        if cand:
+                            bad = want.copy()
+                            bad[u, w_old] = 0
+                            bad[u, cand[0]] = 1
+                            r = monitored(dsw.adjacency_matrix_to_accessor, big * 4, bad)
+                            if r.kind == "ok":
+                                ctx.fail("illegal-matrix-accepted", "matrix in which the arc %d->%d was re-wired to the non-shift arc %d->%d was converted instead of raising ValueError; %s" % (u, w_old, u, cand[0], where))
+                            elif r.kind == "budget" or not isinstance(r.exc, ValueError):
+                                ctx.fail("illegal-matrix-wrong-exception", "re-wired matrix: %s; %s" % (r.describe(), where))
+                            ctx.cls("illegal-matrix|re-wired rejected")
+                # earlier results stay intact: convert a different accessor of the same order, then look at `mat` again
+                other = acc.copy()
+                flip = rng.sample(range(n), max(1, n // 8))
+                for v in flip:
+                    j = rng.randrange(4)
+                    other[v, j] = -1 if other[v, j] >= 0 else (v * 4 + j) % n
+                o2 = monitored(dsw.accessor_to_adjacency_matrix, big + n * 50, other)
+                if o2.kind == "ok" and not np.array_equal(np.asarray(mat), want):
+                    ctx.fail("earlier-result-overwritten", "the matrix returned for the first accessor changed when a second accessor of the same order was converted; %s" % where)
+                ctx.cls("earlier matrix re-read after a later conversion (k=%d)" % k if k >= 5 else "earlier matrix re-read after a later conversion")
             del mat, want
 
     out = monitored(dsw.obtain_vertices, big, facc)
@@ -154,6 +191,35 @@ def check_graph(ctx, case):
             ctx.evaluations += 1
     if guard.changed():
         ctx.fail("argument-modified", "the accessor argument changed: %s; %s" % (guard.changed(), where))
+    # G2: the same latter-map / accessor objects edited in place (an arc removed), leaf queries repeated
+    if lm is not None and want_lm:
+        live_acc = np.array(acc)
+        live_lm = {int(a): [int(x) for x in b] for a, b in lm.items()}
+        root = rng.choice(sorted(want_lm))
+        for d in range(0, min(k + 2, 5)):
+            dsw.obtain_leaf_vertices(root, d, accessor=live_acc)
+            dsw.obtain_leaf_vertices(root, d, latter_map=live_lm)
+        u = rng.choice(sorted(want_lm))
+        w_rm = rng.choice(want_lm[u])
+        live_acc[u, w_rm % 4] = -1
+        live_lm[u].remove(w_rm)
+        if not live_lm[u]:
+            del live_lm[u]
+        for d in range(0, min(k + 2, 5)):
+            level = Counter({root: 1})
+            for _ in range(d):
+                nxt = Counter()
+                for v, c in level.items():
+                    for w in live_acc[v]:
+                        if w >= 0:
+                            nxt[int(w)] += c
+                level = nxt
+            for name, r in (("accessor", monitored(dsw.obtain_leaf_vertices, big, root, d, accessor=live_acc)),
+                            ("latter map", monitored(dsw.obtain_leaf_vertices, big, root, d, latter_map=live_lm))):
+                if r.kind != "ok" or Counter(int(x) for x in np.asarray(r.value).reshape(-1).tolist()) != level:
+                    ctx.fail("leaf-query-after-edit", "obtain_leaf_vertices(%d, depth %d, %s) after the arc %d->%d was removed in place from the same object: %s, expected %s; %s" % (
+                        root, d, name, u, w_rm, r.describe(), dict(sorted(level.items())[:8]), where))
+        ctx.cls("leaf queries repeated after an in-place edit")
     degs = G.out_degrees(acc)
     nontrivial = bool(((degs > 0) & (degs < 4)).any())
     ctx.cls("k|%d" % k)
@@ -168,7 +234,9 @@ def floors(agg, tier):
     out = []
     c = agg["classes"]
     for name, need in (("density|partial", 500), ("density|empty", 20), ("density|complete", 20), ("illegal-matrix|rejected", 1000),
-                       ("leaf-query|live root", 1000), ("leaf-query|dead root", 200), ("k|5", 20)):
+                       ("leaf-query|live root", 1000), ("leaf-query|dead root", 200), ("k|5", 20),
+                       ("hand-built map in arbitrary order", 500), ("illegal-matrix|re-wired rejected", 500),
+                       ("earlier matrix re-read after a later conversion (k=5)", 20), ("leaf queries repeated after an in-place edit", 500)):
         if c.get(name, 0) < need:
             out.append("%s observed %d < %d" % (name, c.get(name, 0), need))
     return out
